@@ -84,6 +84,26 @@ def handle (op : String) (c i : Json) : Except String (Json × String) := do
     let want ← J.strList (← J.key c "ecus")
     let got ← J.strList (getK i "ecus")
     pure (J.obj [], if want.all got.contains then "ok" else "fail: a described ECU is missing")
+  | "defs" =>
+    -- c = {"want": level -> name -> [type, parameters, default]}; i = {"got": the same from the matrix read, "exc"}
+    if !J.isNull (getK i "exc") then return (J.obj [], "fail: reading the file raised")
+    let want ← J.key c "want"
+    let got := getK i "got"
+    let lv := ["frame", "signal", "ecu", "global"]
+    let bad ← lv.filterMapM fun l => do
+      let w ← J.key want l
+      let g := J.keyD got l (J.obj [])
+      match w with
+      | .obj kvs =>
+        let miss := kvs.toList.filterMap fun (name, v) =>
+          match g.getObjVal? name with
+          | .ok gv => if gv == v then none else some s!"attribute definition {name} ({l}): type, parameters or default differ from the described ones"
+          | .error _ => some s!"attribute definition {name} ({l}) is missing"
+        pure miss.head?
+      | _ => pure none
+    pure (J.obj [], match bad with
+      | [] => "ok"
+      | b :: _ => "fail: " ++ b)
   | "sgx" =>
     let line ← J.str (← J.key c "line")
     pure (J.obj [("parsed", D05.optJ D05.sgJ (parseSg (stripWs line.toList)))], "ok")
